@@ -351,9 +351,6 @@ for fn, tag, lens, what in SORT:
         UC("c18-%s-%d" % (tag, L), "par_sort", "k18_%s::<%d>()" % (fn, L), {"C18": "quick"}, "bounded", ["par_sort::" + fn],
            "%s: %s" % (fn, what), unwind=L + 3, bound="every array of %d bytes, strict weak order = low 2 bits (ties with distinguishable payloads)" % L, cost=6, timeout=1500,
            stubs=[("rayon::join", "crate::par_sort::verif_par_sort::seq_join")] if fn == "par_quicksort" else [])
-UC("c18-partial-insertion-sort-50", "par_sort", "k18_partial_insertion_sort_50::<3>()", {"C18": "quick"}, "bounded", ["par_sort::partial_insertion_sort", "par_sort::shift_head", "par_sort::shift_tail"],
-   "partial_insertion_sort on 50 elements (it only shifts in slices >= 50): true => sorted; always a permutation", unwind=53,
-   bound="50 bytes: the first 3 symbolic (< 60), the rest 3, 4, .., 49 ascending; order = byte value", cost=8, timeout=1500)
 UC("c18-canary", "par_sort", "k18_canary()", {"C18": "quick"}, "bounded", [], "canary", unwind=8, expect="fail", no_cover=True)
 
 # ---------------------------------------------------------------------------
